@@ -55,6 +55,10 @@ var poolSrc = []string{
 	`("null" | json)`, `("-1.5" | json)`, `("\"s\"" | json)`, `("true" | json)`, `("{}" | json)`, `("[]" | json)`,
 	`([0x83,0xa1,97,1,0xa1,98,0x92,0xcb,0x3f,0xf0,0,0,0,0,0,0,0xc0,0xa1,99,0xc4,2,0xde,0xad] | tobytes | msgpack)`,
 	`([0x83,0xa1,97,1,0xa1,98,0x92,0xcb,0x3f,0xf0,0,0,0,0,0,0,0xc0,0xa1,99,0xc4,2,0xde,0xad] | tobytes | msgpack | .pairs[0].key)`,
+	// decode values with string scalars whose byte length, rune count and the
+	// display limits (string_truncate 50 by default) fall apart (seed C13-4)
+	`([0xd9, 51, ("あ" * 17)] | tobytes | msgpack)`, `([0xd9, 120, ("😀" * 30)] | tobytes | msgpack)`, `([0xd9, 200, ("é" * 100)] | tobytes | msgpack)`,
+	`([0x82, 0xd9, 51, ("あ" * 17), 0xd9, 60, ("é" * 30), 0xd9, 49, ("a" * 46), "中", 0xc4, 3, 0xe3, 0x81, 0x82] | tobytes | msgpack)`,
 	`("f" | open)`,
 	`{"indent":-1}`, `{"indent":1048576}`, `{"indent":-3, "array": true}`, `{"line_bytes":-5}`, `{"line_bytes":0}`, `{"bits_format":"nope"}`,
 	`{"unit":0}`, `{"unit":-8}`, `{"display_bytes":-1, "depth":-1}`, `{"addrbase":1, "sizebase":99}`, `{"force":"x", "skip_gaps": 5}`,
@@ -500,6 +504,7 @@ var optionInputs = []string{
 	`[["a","b"],["c","d"]]`,
 	`"<a x=\"1\"><b>t</b></a>"`,
 	`([1,2,3,4,5] | tobits[3:29])`,
+	`([0x82, 0xd9, 51, ("あ" * 17), 0xd9, 60, ("é" * 30), 0xd9, 49, ("a" * 46), "中", 0xc4, 3, 0xe3, 0x81, 0x82] | tobytes | msgpack)`,
 }
 
 func TestOptionPairs(t *testing.T) {
